@@ -9,6 +9,7 @@ import (
 	"strconv"
 	"unicode/utf8"
 
+	"github.com/cloudwego/dynamicgo/conv"
 	"github.com/cloudwego/dynamicgo/conv/j2t"
 	"github.com/cloudwego/dynamicgo/thrift"
 	"github.com/cloudwego/dynamicgo/verifbridge"
@@ -24,6 +25,29 @@ func runC18(c *h.Ctx) {
 	c.Note("native_flavour_bound", verifbridge.NativeFlavour())
 	c.Note("portable", verifbridge.Portable)
 	c.Cover("flavour_bound_" + verifbridge.NativeFlavour())
+
+	// ---- (a') api.js_conv value mapping in every flavour (the inline native writer vs the Go fallback)
+	c.Run("j2t-jsconv-join", c.N(1500, 40000), func(cs *h.Case) {
+		k := jsConvCase(cs)
+		if k == nil {
+			return
+		}
+		cs.Info("idl", k.sc.IDL())
+		cs.Info("doc", k.doc)
+		cv := j2t.NewBinaryConv(conv.Options{EnableValueMapping: true})
+		out, err := cv.Do(context.Background(), k.desc, []byte(k.doc))
+		res := "rejected"
+		if err == nil {
+			res = "ok:" + fmt.Sprintf("%x", out)
+		}
+		kind := "j2t-jsconv"
+		if k.mappedI16 {
+			kind = "j2t-jsconv-i16" // subject of the known finding C02-K2 / C18-K1
+		}
+		cs.Res(kind, res)
+		cs.Cover("j2t_jsconv_join_cases")
+		cs.Distinct(fmt.Sprintf("jj-%v-%s", k.mappedI16, shapeKey(k.want)[:min(len(shapeKey(k.want)), 14)]))
+	})
 
 	// ---- (a) the same j2t case list in every flavour: results are joined by the driver ------------
 	c.Run("j2t-join", c.N(4000, 120000), func(cs *h.Case) {
